@@ -20,7 +20,7 @@ CHECKS = {
                 'never-cancelled event has run exactly once at its reference time.',
     },
     'C09': {
-        'harnesses': ['harness.c09_pool'],
+        'harnesses': ['harness.c09_pool'], 'lemmas': 'c09',
         'text': 'Bounded model checking of the real ResourceManager/ReservedResources: every sequence of N pool operations '
                 '(add/reduce, reserve in both key orders incl. zero/negative/unknown entries, full/partial/repeated release, '
                 'merge) with unbounded symbolic integer amounts is explored path-exhaustively by CrossHair+z3 and the '
@@ -152,6 +152,7 @@ TECHNIQUE = {
     'C07': _T + '; plus AST->SMT translation of the unpause shift statement, three lemmas over the reals (z3, cvc5)',
     'C05': _T + '; plus AST->SMT (QF_BVFP) translation of the IEEE-754 delay guard, 2-ulp bound proved by cvc5 (1-ulp version shown sat)',
     'C19': _T + '; plus a QF_FP query (z3) for float intervals on which k*iv differs from repeated addition, replayed on the real sensor (witness check)',
+    'C09': _T + '; plus QF_FP queries (z3) for fractional amounts whose add/subtract round trip leaves a residue, replayed on the real ResourceManager (witness check)',
     'C12': _T + '; plus QF_FP queries (z3) for fractional needed capacities whose add/subtract round trip is inexact, replayed on the real Maintainer (witness check)',
     'C14': _T + '; the second run / the unsplit run replays the same symbolic tie-break weights; object hashes controlled by the harness',
     'C04': _T + '; reference recurrence built as z3 max-terms and compared by validity queries',
